@@ -27,7 +27,8 @@
 (***************************************************************************)
 EXTENDS Integers, Sequences, FiniteSets, TLC, Json
 
-CONSTANTS NP,        \* number of parameters
+CONSTANTS Mode,      \* "zeros": the life described above;  "flip" / "pair": sign histories, see the end of the module
+          NP,        \* number of parameters
           Layer,     \* parameters per layer (k-UpCCGSD repeats the same Layer parameters k times; NP for the others)
           MaxLen     \* vectors per behaviour (1 build + MaxLen-1 updates)
 
@@ -75,6 +76,34 @@ UpdateOther == /\ Len(hist) < MaxLen
                /\ zs' = Pick(c')
                /\ sch' \in Schemes
                /\ hist' = Append(hist, ToSeq(Vec(zs', sch')))
+
+\* ---- sign histories ("flip", "pair"): explored EXHAUSTIVELY (breadth first, no -simulate) ----------------------------
+\* Two parameters with EXACTLY opposite amplitudes make contributions to shared Pauli words cancel exactly: the word list
+\* of the generator keeps its content but changes its ORDER (or loses words) - an object that decides "update in place" from
+\* the set of words and writes angles by position then puts angles on the wrong words.  Vectors are integer LEVELS, all
+\* multiplied by ONE common amplitude (so that +l and -l are exactly opposite radians).
+\*   flip: build at a sign-free level pattern Gen(s), then negate ONE parameter (it becomes exactly opposite to every
+\*         parameter of the same level)                                   - NP updates per pattern
+\*   pair: build at levels 3..7, then set an ordered pair (p, q) to (+1, -1): the ONLY exactly opposite pair
+\*                                                                        - NP (NP - 1) updates
+Gen(s) == CASE s = 0 -> [i \in Idx |-> 1]
+            [] s = 1 -> [i \in Idx |-> 1 + (i % 3)]
+            [] s = 2 -> [i \in Idx |-> 1 + ((i + 1) % 2)]
+            [] s = 3 -> [i \in Idx |-> 3 + (i % 5)]
+SignInit == /\ c = 0 /\ zs = {}
+            /\ sch \in (IF Mode = "flip" THEN 0..2 ELSE {3})
+            /\ hist = <<ToSeq(Gen(sch))>>
+Flip == /\ Mode = "flip" /\ Len(hist) = 1
+        /\ \E q \in Idx : hist' = Append(hist, ToSeq([Gen(sch) EXCEPT ![q] = -Gen(sch)[q]]))
+        /\ UNCHANGED <<zs, sch, c>>
+Pair == /\ Mode = "pair" /\ Len(hist) = 1
+        /\ \E p \in Idx : \E q \in Idx \ {p} : hist' = Append(hist, ToSeq([Gen(sch) EXCEPT ![p] = 1, ![q] = -1]))
+        /\ UNCHANGED <<zs, sch, c>>
+SignNext == Flip \/ Pair
+SignTypeOK == /\ Len(hist) \in 1..2 /\ \A i \in Idx : hist[1][i] > 0
+              /\ (Len(hist) = 2 => Cardinality({i \in Idx : hist[2][i] < 0}) = 1)
+              /\ (Len(hist) = 2 /\ Mode = "pair" =>
+                     Cardinality({pq \in Idx \X Idx : pq[1] # pq[2] /\ hist[2][pq[1]] = -hist[2][pq[2]]}) = 2)   \* one pair, both orders
 
 Next == UpdateSame \/ UpdateOther
 Spec == Init /\ [][Next]_vars
